@@ -8,6 +8,7 @@ CONSTANTS
   MemLimit = @MEMLIMIT@
   CtlTake = 1
   AllowOrphans = @ORPH@
+  AllowBodyDeadline = @BODYDL@
   MaxCuts = @CUTS@
   MaxProxy = @PROXY@
   MaxCloses = @CLOSES@
